@@ -59,6 +59,16 @@ class NoHints:
         self.b = b
 class Empty:
     pass
+class VarHints:
+    def __init__(self, host, *aliases, port=80, **options):
+        self.host = host
+        self.aliases = aliases
+        self.port = port
+        self.options = options
+class KwOnly:
+    def __init__(self, a, *, b=2):
+        self.a = a
+        self.b = b
 class InitHints:
     def __init__(self, a: "int", b: "decimal.Decimal" = None):
         self.a = a
@@ -75,7 +85,7 @@ EXT_NAMES = {
     "T_free": "T_free", "T_bound": "T_bound", "T_constr": "T_constr",
     "Callable": "typing.Callable[[int], str]", "CallableBare": "typing.Callable", "CallableEll": "typing.Callable[..., int]",
     "type[int]": "type[int]", "typing.Type": "typing.Type[int]", "Box": "Box", "Box[int]": "Box[int]", "Box[T]": "Box[T_free]",
-    "NoHints": "NoHints", "Empty": "Empty", "WithAny": "WithAny", "InitHints": "InitHints",
+    "NoHints": "NoHints", "VarHints": "VarHints", "KwOnly": "KwOnly", "Empty": "Empty", "WithAny": "WithAny", "InitHints": "InitHints",
 }
 COLL_SPELL = {
     ("list", "builtin"): "list[{a}]", ("list", "typing"): "typing.List[{a}]",
@@ -255,6 +265,18 @@ class Env:
                 lines.append("        pass")
             lines.append("    def __eq__(self, o): return type(o) is type(self) and vars(o) == vars(self)")
             lines.append("    __hash__ = None")
+        elif fl == "sig":
+            # no class-level annotations: the members are the parameters of the constructor, the first
+            # positional, the others keyword-only
+            lines.append(f"class {name}:")
+            args = ""
+            for i, (fn, src, has_d, T) in enumerate(fields):
+                args += (", *" if i == 1 else "") + f", {fn}: {src}" + (f" = {dsrc[fn]}" if has_d else "")
+            lines.append(f"    def __init__(self{args}):")
+            for fn, *_ in fields:
+                lines.append(f"        self.{fn} = {fn}")
+            lines.append("    def __eq__(self, o): return type(o) is type(self) and vars(o) == vars(self)")
+            lines.append("    __hash__ = None")
         elif fl == "slots":
             lines.append(f"class {name}:")
             lines.append(f"    __slots__ = {tuple(f[0] for f in fields)!r}")
@@ -371,8 +393,8 @@ LEAF_POOLS = {
     "Fraction": [fractions.Fraction(1, 3), fractions.Fraction(-7, 2), fractions.Fraction(5), fractions.Fraction(0),
                  fractions.Fraction(3, 2)],
     "UUID": [uuid.UUID(int=0), uuid.UUID("12345678-1234-5678-1234-567812345678"), uuid.UUID(int=2**128 - 1)],
-    "PurePosixPath": [pathlib.PurePosixPath(p) for p in ("a/b", "/abs/x", ".", "1")],
-    "Path": [pathlib.Path(p) for p in ("a/b", "/abs/x", ".")],
+    "PurePosixPath": [pathlib.PurePosixPath(p) for p in ("a/b", "/abs/x", ".", "1", "notes ", " draft/x.txt")],
+    "Path": [pathlib.Path(p) for p in ("a/b", "/abs/x", ".", "notes ", " draft.txt", "a\nb")],
     "Pattern": [re.compile(p) for p in ("a+b", "^x$", "[0-9]{2}", "")],
     "date": [datetime.date(1970, 1, 1), datetime.date(2020, 2, 29), datetime.date.min, datetime.date.max,
              datetime.date(1969, 12, 31)],
